@@ -454,6 +454,7 @@ class RefCodec:
     def __init__(self, schema, r):
         self.s, self.r = schema, r
         self.unsorted_dict = False
+        self.strict_masks = False  # C28 value domain: masks set only bits the schema gives meaning to, unused '#' are 0
 
     # ---- random abstract values ----------------------------------------------------------
     def value(self, t, env, depth=0):
@@ -532,7 +533,7 @@ class RefCodec:
                     for b in used_bits.get(f.name, ()):
                         if depth <= 4 and r.chance(1, 2 + depth):
                             v |= 1 << b
-                    if r.chance(1, 5) and depth <= 4:
+                    if r.chance(1, 5) and depth <= 4 and not self.strict_masks:
                         v |= 1 << r.below(32)
                     if depth > 4:
                         v = 0  # recursion through masked fields stops here
@@ -540,6 +541,8 @@ class RefCodec:
                     v = 0
                 else:
                     v = r.below(4)
+                if self.strict_masks and not nat_is_used(fields, f.name):
+                    v = 0
                 env[f.name] = v
                 vals.append((f, v))
                 continue
@@ -770,10 +773,15 @@ class RefCodec:
             raise RefError("padding")
         return bytes(buf[pos + hdr:pos + total]), pos + total + pad
 
-    def dec_fields(self, fields, buf, pos, penv):
+    def dec_fields(self, fields, buf, pos, penv, missing_nat_from=None):
         env = dict(penv)
         vals = []
-        for f in fields:
+        for fi, f in enumerate(fields):
+            if missing_nat_from is not None and fi >= missing_nat_from and pos >= len(buf) and f.typ.kind == "nat" and f.arr is None and not f.mask:
+                # an appended function argument that is a field mask: old requests end here, the mask reads as zero
+                env[f.name] = 0
+                vals.append((f, ABSENT))
+                continue
             present = True
             if f.mask:
                 mv = env.get(f.mask[0].val, 0)
@@ -819,6 +827,29 @@ class RefCodec:
         """returns (value, consumed) or raises RefError"""
         v, pos = self.dec_decl(d, buf, 0, {}, boxed or d.kind in ("union", "enum"))
         return v, pos
+
+
+def nat_is_used(fields, name):
+    """is the nat field referenced by a later field (mask, array size, tuple size, template argument)"""
+    def in_type(t):
+        k = t.kind
+        if k == "tuple" and t.size.kind == "field" and t.size.val == name:
+            return True
+        if k == "ref" and any(a.kind == "field" and a.val == name for a in t.args):
+            return True
+        for sub in ("elem", "a", "b"):
+            x = getattr(t, sub, None)
+            if isinstance(x, T) and in_type(x):
+                return True
+        return False
+    for f in fields:
+        if f.mask and f.mask[0].val == name:
+            return True
+        if f.arr is not None and f.arr.kind == "field" and f.arr.val == name:
+            return True
+        if in_type(f.typ):
+            return True
+    return False
 
 
 def generate(seed, label="schema", **kw):
